@@ -272,6 +272,10 @@ fn gen_weights(r: &mut Rng, n: usize, zeros: bool) -> (&'static str, Vec<i64>) {
 }
 
 struct Case {
+    /// description of a large structured input (its points are not written into the JSON record)
+    desc: String,
+    /// the points as a Coq expression (large inputs), instead of the literal list of bit patterns
+    pts_coq: Option<String>,
     family: String,
     wfamily: String,
     d: usize,
@@ -288,7 +292,145 @@ struct Case {
     blk: usize,
 }
 
+/// Coordinate j of point i of a large input, as a formula both sides evaluate (RunC11.cspec): the case file
+/// then carries the formula, not tens of thousands of 19-digit bit patterns (coqc spends ~1 ms per such numeral).
+#[derive(Clone)]
+enum CSpec {
+    /// ((a * i + b) mod m) / q
+    Aff { a: i64, b: i64, m: i64, q: i64 },
+    /// blocks of 1024 entries in the order `order`: b = order[i / 1024], o = i mod 1024;
+    /// o * nb + b (interleaved) or b * 1024 + o
+    Block { order: Vec<i64>, interleave: bool },
+}
+impl CSpec {
+    fn eval(&self, i: i64) -> f64 {
+        (match self {
+            CSpec::Aff { a, b, m, q } => ((a * i + b) % m) / q,
+            CSpec::Block { order, interleave } => {
+                let (b, o, nb) = (order[(i / 1024) as usize], i % 1024, order.len() as i64);
+                if *interleave {
+                    o * nb + b
+                } else {
+                    b * 1024 + o
+                }
+            }
+        }) as f64
+    }
+    fn coq(&self) -> String {
+        match self {
+            CSpec::Aff { a, b, m, q } => format!("CAff {} {} {} {}", a, b, m, q),
+            CSpec::Block { order, interleave } => format!(
+                "CBlock [{}] {}",
+                order.iter().map(|x| x.to_string()).collect::<Vec<_>>().join(";"),
+                coq_bool(*interleave)
+            ),
+        }
+    }
+}
+const HUGE: i64 = 1 << 40;
+fn modulo(i_mod: i64) -> CSpec {
+    CSpec::Aff { a: 1, b: 0, m: i_mod, q: 1 }
+}
+fn quotient(i_div: i64) -> CSpec {
+    CSpec::Aff { a: 1, b: 0, m: HUGE, q: i_div }
+}
+/// a scattered, deterministic "random" coordinate: (a * i + b) mod p for a prime p
+fn scatter(r: &mut Rng) -> CSpec {
+    let p = *r.pick(&[1_000_003i64, 999_983, 65_537, 10_007]);
+    CSpec::Aff { a: r.range(1, p - 1), b: r.range(0, p - 1), m: p, q: 1 }
+}
+fn spec_points(n: usize, specs: &[CSpec]) -> (Vec<Vec<f64>>, String) {
+    let pts = (0..n as i64).map(|i| specs.iter().map(|s| s.eval(i)).collect()).collect();
+    let coq = format!("(gen_pts {}%nat [{}]%Z)", n, specs.iter().map(|s| s.coq()).collect::<Vec<_>>().join(";"));
+    (pts, coq)
+}
+
+/// Large structured inputs (n > 1024): grids numbered row by row with a row length that is a multiple of
+/// 1024, the same column-major, and point sets whose order is sorted inside every aligned block of 1024 but
+/// not across blocks.  A sort that trusts a block-local "already sorted" test leaves them unsorted.
+fn gen_big_case(r: &mut Rng) -> Case {
+    let variant = r.below(4);
+    let (cols, rows) = *r.pick(&[(1024usize, 2usize), (1024, 3), (1024, 4), (1024, 5), (1024, 8), (2048, 2), (2048, 3), (3072, 2)]);
+    let n = cols * rows;
+    let (name, specs): (&str, Vec<CSpec>) = match variant {
+        0 | 1 => ("grid_row_major", vec![modulo(cols as i64), quotient(cols as i64)]),
+        2 => ("grid_column_major", vec![quotient(rows as i64), modulo(rows as i64)]),
+        _ => {
+            // x strictly increasing inside every block of 1024 entries, the blocks in a shuffled order
+            let nb = n / 1024;
+            let mut order: Vec<i64> = (0..nb as i64).collect();
+            for i in (1..nb).rev() {
+                let j = r.below(i as u64 + 1) as usize;
+                order.swap(i, j);
+            }
+            ("blockwise_sorted_shuffled_blocks", vec![CSpec::Block { order, interleave: r.chance(1, 2) }, scatter(r)])
+        }
+    };
+    let (pts, pts_coq) = spec_points(n, &specs);
+    let ws: Vec<i64> = if r.chance(1, 2) { vec![1; n] } else { (0..n).map(|_| r.range(1, 9)).collect() };
+    let k = *r.pick(&[2usize, 3, 4, 4, 8]);
+    let max_iter = *r.pick(&[1usize, 1, 1, 2]);
+    Case {
+        desc: format!("{} {} x {}: {}", name, cols, rows, pts_coq),
+        pts_coq: Some(pts_coq),
+        family: format!("big/{}", name),
+        wfamily: "w_big".to_string(),
+        d: 2,
+        pts,
+        ws,
+        wexp: 0,
+        wsh: vec![0; n],
+        conc: 0,
+        k,
+        max_iter,
+        pool: *r.pick(&[1usize, 2, 4, 8, 16]),
+        blk: 1,
+    }
+}
+
+/// Large inputs whose FINAL PARTS are large and of no particular size: n in {9001, 10000, 12345, 20000, 30000},
+/// 2..4 parts chosen so that every leaf holds more than 4096 points (and no multiple of 1024 / 4096); scattered
+/// clouds and grids of odd widths.  A leaf write that handles the slice in fixed-size chunks and forgets the
+/// remainder leaves elements unwritten (the buffer is prefilled with usize::MAX).
+fn gen_unaligned_big_case(r: &mut Rng) -> Case {
+    let n = *r.pick(&[9001usize, 10000, 12345, 20000, 30000]);
+    let kmax = ((n - 1) / 4200).clamp(2, 4);
+    let k = r.range(2, kmax as i64) as usize;
+    let d = if r.chance(1, 3) { 3usize } else { 2 };
+    let (name, specs): (&str, Vec<CSpec>) = if r.chance(1, 2) {
+        ("cloud", (0..d).map(|_| scatter(r)).collect())
+    } else {
+        let w = *r.pick(&[97i64, 100, 123, 1000, 1001]);
+        let mut v = vec![modulo(w), quotient(w)];
+        if d == 3 {
+            v.push(modulo(7));
+        }
+        ("grid_odd_width", v)
+    };
+    let (pts, pts_coq) = spec_points(n, &specs);
+    let ws: Vec<i64> = if r.chance(1, 2) { vec![1; n] } else { (0..n).map(|_| r.range(1, 9)).collect() };
+    Case {
+        desc: format!("{} of {} points: {}", name, n, pts_coq),
+        pts_coq: Some(pts_coq),
+        family: format!("big_unaligned/{}", name),
+        wfamily: "w_big".to_string(),
+        d,
+        pts,
+        ws,
+        wexp: 0,
+        wsh: vec![0; n],
+        conc: 0,
+        k,
+        max_iter: 1,
+        pool: *r.pick(&[1usize, 2, 4, 8, 16]),
+        blk: 1,
+    }
+}
+
 fn gen_case(r: &mut Rng, tier: &str, allow_conc: bool) -> Case {
+    if allow_conc && r.chance(if tier == "thorough" { 4 } else { 12 }, 1000) {
+        return gen_big_case(r);
+    }
     let big = tier == "thorough";
     let d = if r.chance(1, 2) { 2 } else { 3 };
     let stream = match r.below(100) {
@@ -385,6 +527,8 @@ fn gen_case(r: &mut Rng, tier: &str, allow_conc: bool) -> Case {
         pool = *r.pick(&[0usize, 1, 2, 4]); // 0 = rayon's global pool, shared by the simultaneous calls
     }
     Case {
+        desc: String::new(),
+        pts_coq: None,
         family: format!("{}/{}", stream, pf),
         wfamily: wf.to_string(),
         d,
@@ -611,7 +755,8 @@ fn main() {
     let (mut conc_cases, mut conc_odd) = (0usize, 0usize);
     for idx in 0..a.cases {
         let mut r = rng.fork();
-        let c = gen_case(&mut r, &a.tier, true);
+        // two large unaligned inputs per 1200 cases, at fixed indices (so that every run has them)
+        let c = if idx % 600 == 299 { gen_unaligned_big_case(&mut r) } else { gen_case(&mut r, &a.tier, true) };
         // companions of the concurrency stream: other inputs whose calls run at the same time
         let companions: Vec<Case> = (0..c.conc)
             .map(|_| loop {
@@ -682,7 +827,9 @@ fn main() {
             }
             _ => {}
         }
+        let big = c.pts.len() > 600;
         let sorts = match &tree {
+            Some(_) if big => Vec::new(), // the model is not re-run on large inputs (RunC11.eval_big)
             Some(t) => {
                 if c.d == 2 {
                     sorts_of::<2>(&c, t)
@@ -702,19 +849,21 @@ fn main() {
             }
             None => "None".to_string(),
         };
-        let pts_coq: Vec<String> = c
-            .pts
-            .iter()
-            .map(|p| format!("[{}]", p.iter().map(|x| x.to_bits().to_string()).collect::<Vec<_>>().join(";")))
-            .collect();
-        let sorts_coq: Vec<String> = sorts
-            .iter()
-            .map(|(ax, i, o)| format!("({}, {}, {})", ax, coq_natlist(i.iter().cloned()), coq_natlist(o.iter().cloned())))
-            .collect();
-        let coq = format!(
-            "mk11 {}%nat [{}]%N {} {} {}%N {}%nat {}%nat {}%N {}%N [{}]%nat {} {}",
-            c.d,
-            pts_coq.join(";"),
+        let pts_term: String = match &c.pts_coq {
+            Some(e) => e.clone(),
+            None => format!(
+                "[{}]%N",
+                c.pts
+                    .iter()
+                    .map(|p| format!("[{}]", p.iter().map(|x| x.to_bits().to_string()).collect::<Vec<_>>().join(";")))
+                    .collect::<Vec<_>>()
+                    .join(";")
+            ),
+        };
+        // uniform weights of a large input as an expression too
+        let ws_term: String = if c.pts_coq.is_some() && c.ws.iter().all(|w| *w == c.ws[0]) {
+            format!("(repeat {}%Z {}%nat)", c.ws[0], c.ws.len())
+        } else {
             format!(
                 "[{}]%Z",
                 c.ws.iter()
@@ -722,7 +871,17 @@ fn main() {
                     .map(|(w, s)| if *s == 0 { coq_z(*w as i128) } else { format!("({} * 2 ^ {})", w, s) })
                     .collect::<Vec<_>>()
                     .join(";")
-            ),
+            )
+        };
+        let sorts_coq: Vec<String> = sorts
+            .iter()
+            .map(|(ax, i, o)| format!("({}, {}, {})", ax, coq_natlist(i.iter().cloned()), coq_natlist(o.iter().cloned())))
+            .collect();
+        let coq = format!(
+            "mk11 {}%nat {} {} {} {}%N {}%nat {}%nat {}%N {}%N [{}]%nat {} {}",
+            c.d,
+            pts_term,
+            ws_term,
             format!("({})%Z", c.wexp),
             c.k,
             c.max_iter,
@@ -738,22 +897,41 @@ fn main() {
             .iter()
             .map(|p| format!("[{}]", p.iter().map(|x| format!("{:?}", x)).collect::<Vec<_>>().join(",")))
             .collect();
+        let short = |g: &PartRes| match g {
+            Guarded::Done(Ok(p)) => {
+                let mut ids: Vec<usize> = p.clone();
+                ids.sort_unstable();
+                ids.dedup();
+                format!("{{\"ok_first_64\":{},\"distinct_ids\":{}}}", json_usizes(&p[..p.len().min(64)]), json_usizes(&ids))
+            }
+            other => json_impl_partition(other),
+        };
+        let (pts_field, ws_field, impl_field, seq_field) = if big {
+            (
+                json_str(&format!("{} points: {}", c.pts.len(), c.desc)),
+                json_str(&format!("{} weights, first 16: {:?}", c.ws.len(), &c.ws[..16])),
+                short(&res),
+                short(&seq),
+            )
+        } else {
+            (format!("[{}]", pts_json.join(",")), json_i64s(&c.ws), json_impl_partition(&res), json_impl_partition(&seq))
+        };
         let json = format!(
-            "{{\"weight_family\":\"{}\",\"dim\":{},\"points\":[{}],\"weights\":{},\"weight_exponent\":{},\"weight_extra_shifts\":{},\"simultaneous_calls\":{},\"part_count\":{},\"max_iter\":{},\"pool\":{},\"scheme_leaves\":{},\"sort_replays\":{},\"impl\":{},\"impl_one_thread\":{}}}",
+            "{{\"weight_family\":\"{}\",\"dim\":{},\"points\":{},\"weights\":{},\"weight_exponent\":{},\"weight_extra_shifts\":{},\"simultaneous_calls\":{},\"part_count\":{},\"max_iter\":{},\"pool\":{},\"scheme_leaves\":{},\"sort_replays\":{},\"impl\":{},\"impl_one_thread\":{}}}",
             c.wfamily,
             c.d,
-            pts_json.join(","),
-            json_i64s(&c.ws),
+            pts_field,
+            ws_field,
             c.wexp,
-            json_usizes(&c.wsh.iter().map(|x| *x as usize).collect::<Vec<_>>()),
+            if big { "[]".to_string() } else { json_usizes(&c.wsh.iter().map(|x| *x as usize).collect::<Vec<_>>()) },
             c.conc,
             c.k,
             c.max_iter,
             c.pool,
             tree.as_ref().map_or(0, leaf_count),
             sorts.len(),
-            json_impl_partition(&res),
-            json_impl_partition(&seq)
+            impl_field,
+            seq_field
         );
         let key = format!(
             "{}|{:?}|{}|{}|{:?}|{:?}|{}|{}|{}",
